@@ -8,7 +8,8 @@
   `advStep_branch`, `advanceHeadFront_branches`, `or_group_phase1_real` (every matching branch head ends MERGING and is handed back).  A head that ends on an action (`send`):
   `forIn_readonly_false`, `advanceHeadFront_one_action`, `group_exit_real` (the forking head leaves the group and is handed back as actionable).  The merging loop's call on the MERGING member
   head of an and-group, with the nested call on the forking head: `and_group_merge_real`; the same for ONE MERGING branch head of an
-  or-group of single atoms: `or_group_merge_real`.  Both calls composed for one event on a pure and-group: `and_group_event_real`.
+  or-group of single atoms: `or_group_merge_real`.  Both calls composed for one event on a pure and-group: `and_group_event_real`;
+  on a pure or-group of single atoms with one branch matching: `or_group_event_real`.
 -/
 import NemoVerif.Lemmas.GroupCoreVMMirror
 set_option linter.unusedSimpArgs false
@@ -1143,5 +1144,42 @@ theorem and_group_event_real (fuel : Nat) (s : VM) (f : FUid) (i : Inst) (x : In
       cases hm2 : m'.2 <;> simp_all)
     hfu (by rw [hr1]; exact hhx) (by rw [hr1]; exact hleaf) hmu hfp hst1 (by rw [hr1]; exact hqueue) (by rw [hr1, hclr]; rfl)
     hsz4 hc1 hc2 hp hargs hint (by rw [hr1]; exact hcl _ hujmem)
+
+/-! ### one event on a pure or-group of single atoms (one branch matching) through both calls of the real function -/
+
+/-- **One event on a pure or-group of single atoms through the TWO calls of CoreVM's real `_advance_head_front`**, when exactly one
+    branch head `uj` waits on `match e` (any number of branches): call 1 (event handling, `[uj]`) = `GroupVM.p1Brs`, hands `[uj]` back
+    MERGING; call 2 (merging loop, `[uj]`, queue empty): the group is merged, the forking head is the only head left, ACTIVE on the
+    statement after the group. -/
+theorem or_group_event_real (fuel : Nat) (s : VM) (f : FUid) (i : Inst) (x : InstX) (cfg : FlowCfg) (l mu : String) (pe fp e : Nat)
+    (r : HUid) (us : List (HUid × Nat)) (brs : List Br) (j : Nat) (uj : HUid × Nat) (spec : Spec) (nm : String)
+    (F : FlowAt s f i x cfg) (hown : x.ctxOwner = none) (C : OrShape cfg l mu pe) (S : MembersShape cfg l pe us)
+    (hlen : us.length = brs.length) (hnm : noMulti brs = true) (hndu : (r :: us.map (·.1)).Nodup)
+    (hv : hview i = (r, fp, HeadStatus.inactive) :: renderB (pe + 1) us brs)
+    (hju : us[j]? = some uj) (hjm : (p1Brs e 0 brs).1[j]? = some Br.merging)
+    (hone : ∀ j' m', (p1Brs e 0 brs).1[j']? = some m' → j' ≠ j → ∃ a, m' = Br.single a)
+    (hl1 : (p1Brs e 0 brs).1.length = brs.length)
+    (hmb : matchingB e us brs = [uj.1])
+    (hfu : OMap.lookup mu x.forkUids = some r)
+    (hhx : ((OMap.lookup (f, r) s.r.hx).getD {}).childHeadUids = us.map (·.1))
+    (hleaf : ∀ c ∈ us.map (·.1), ((OMap.lookup (f, c) s.r.hx).getD {}).childHeadUids = [])
+    (hmu : mu ∉ us.map (·.1)) (hfp : fp ≠ pe + 1)
+    (hstarted : i.status = .started) (hrange : ∀ o ∈ i.heads, o.pos < cfg.elements.size)
+    (hqueue : s.r.queue = []) (hclr : s.r.cleared = [])
+    (hsz4 : pe + 3 < cfg.elements.size) (hc1 : cfg.elements[pe + 2]! = .catchFail none) (hc2 : cfg.elements[pe + 3]! = .sendOp spec)
+    (hp : PlainSpec spec nm) (hargs : spec.args = []) (hint : internalEvents.contains nm = false)
+    (hcl : ((OMap.lookup (f, uj.1) s.r.hx).getD {}).catchLabels.isEmpty = false) :
+    ∃ s1 i1 s2 i2 x2, advanceHeadFront (fuel + 3) [(f, uj.1)] s = .ok [(f, uj.1)] s1 ∧ FlowAt s1 f i1 x cfg ∧
+      hview i1 = (r, fp, HeadStatus.inactive) :: renderB (pe + 1) us (p1Brs e 0 brs).1 ∧
+      advanceHeadFront (fuel + 5) [(f, uj.1)] s1 = .ok [(f, r)] s2 ∧ FlowAt s2 f i2 x2 cfg ∧
+      hview i2 = [(r, pe + 3, HeadStatus.active)] := by
+  obtain ⟨s1, i1, hreal, F1, hr1, hv1, hst1⟩ := or_group_phase1_real fuel s f i x cfg l mu pe e [(r, fp, HeadStatus.inactive)] us brs
+    F hown C S hlen hnm (by simpa using hndu) (by simpa using hv) hstarted hrange
+  rw [hmb] at hreal
+  have hv1' : hview i1 = (r, fp, HeadStatus.inactive) :: renderB (pe + 1) us (p1Brs e 0 brs).1 := by simpa using hv1
+  obtain ⟨s2, i2, x2, hreal2, F2, hv2⟩ := or_group_merge_real fuel s1 f i1 x cfg l mu pe fp r us (p1Brs e 0 brs).1 j uj spec nm
+    F1 C hv1' (by rw [hl1]; exact hlen) hndu hju hjm hone hfu (by rw [hr1]; exact hhx) (by rw [hr1]; exact hleaf) hmu hfp hst1
+    (by rw [hr1]; exact hqueue) (by rw [hr1, hclr]; rfl) hsz4 hc1 hc2 hp hargs hint (by rw [hr1]; exact hcl)
+  exact ⟨s1, i1, s2, i2, x2, by simpa using hreal, F1, hv1', hreal2, F2, hv2⟩
 
 end NemoVerif.CoreVM
